@@ -7,12 +7,22 @@
 //   group 6  column-major leaves; raw-triple constructors (c13_mkarr), compute_offset (c13_koff)
 //   groups 7, 8  second halves of the depth 2 / depth 3 compositions
 //   group 9  binary ufuncs with BOTH operands views, reductions over them
+//   groups 12, 13  (float leaves, -DC13_ELEM_FLOAT) unary ufuncs whose op carries RUN-TIME PARAMETERS (leaky_relu slope, elu / celu
+//                  alpha, hardtanh bounds, softplus beta / threshold, hardshrink / softshrink lambda, prelu alpha), alone and in chains
 //   groups 10, 11  NUMBER-valued sub-views (reduction over all axes: axis None, keepdims false) as operands of binary ufuncs
 #include "c13_kernel.hpp"
 #include "nmtools/array/view/cumsum.hpp"
 #include "nmtools/array/view/hstack.hpp"
 #include "nmtools/array/view/vstack.hpp"
 #include "nmtools/array/view/moveaxis.hpp"
+#include "nmtools/array/view/activations/leaky_relu.hpp"
+#include "nmtools/array/view/activations/elu.hpp"
+#include "nmtools/array/view/activations/celu.hpp"
+#include "nmtools/array/view/activations/hardtanh.hpp"
+#include "nmtools/array/view/activations/softplus.hpp"
+#include "nmtools/array/view/activations/hardshrink.hpp"
+#include "nmtools/array/view/activations/softshrink.hpp"
+#include "nmtools/array/view/activations/prelu.hpp"
 using namespace c13;
 
 #ifndef C13_GROUP
@@ -36,6 +46,10 @@ using namespace c13;
 #define DROP nm::None, nm::None, nm::False
 #define SUMALL(x) view::reduce_add(x, nm::None)
 #define MAXALL(x) view::reduce_maximum(x, nm::None)
+
+// run-time parameter i of a parametrised activation: request pq=<ints>, in quarter units (exact in binary32)
+#define PQ(i) (0.25f * (float)par_q(a, i))
+static int par_q(const Args& a, size_t i) { auto v = intsi(a, "pq"); if (i >= v.size()) throw bad_args("pq"); return v[i]; }
 
 static std::string kern(const Args& a) {
     auto prog = get(a, "prog");
@@ -129,6 +143,25 @@ static std::string kern(const Args& a) {
     PROG3("add_mul_sumall_x_x",   view::add(view::multiply(SUMALL(x0), x1), x2))
     PROG2("tr_add_maxall_x",      view::transpose(view::add(MAXALL(x0), x1), AXES))
     PROG3("mul_x_sumall_mul",     view::multiply(x0, SUMALL(view::multiply(x1, x2))))
+#elif C13_GROUP == 12
+    // a unary ufunc whose op carries run-time parameters: the extracted functor must carry THAT parameter (ufunc_t::attributes())
+    PROG1("act_leaky",      view::leaky_relu(x0, PQ(0)))
+    PROG1("act_elu",        view::elu(x0, PQ(0)))
+    PROG1("act_celu",       view::celu(x0, PQ(0)))
+    PROG1("act_hardtanh",   view::hardtanh(x0, PQ(0), PQ(1)))
+    PROG1("act_softplus",   view::softplus(x0, PQ(0), PQ(1)))
+    PROG1("act_hardshrink", view::hardshrink(x0, PQ(0)))
+    PROG1("act_softshrink", view::softshrink(x0, PQ(0)))
+    PROG1("act_prelu",      view::prelu(x0, PQ(0)))
+#elif C13_GROUP == 13
+    // … as inner / outer node of a chain, as first / non-first operand (non-first: known finding on the device path), two in one chain
+    PROG1("neg_leaky",      view::negative(view::leaky_relu(x0, PQ(0))))
+    PROG2("leaky_add",      view::leaky_relu(view::add(x0, x1), PQ(0)))
+    PROG2("add_leaky_x",    view::add(view::leaky_relu(x0, PQ(0)), x1))
+    PROG2("add_x_leaky",    view::add(x0, view::leaky_relu(x1, PQ(0))))
+    PROG2("hardtanh_mul_elu_x", view::hardtanh(view::multiply(view::elu(x0, PQ(0)), x1), PQ(1), PQ(2)))
+    PROG1("sum_softshrink", view::reduce_add(view::softshrink(x0, PQ(0)), AXIS, DROP))
+    PROG1("prelu_tr",       view::prelu(view::transpose(x0, AXES), PQ(0)))
 #elif C13_GROUP == 6
     // same programs over column-major host arrays: context_t::create_array accepts any non-view ndarray
     PROG1("transpose_col", view::transpose(x0, AXES))
